@@ -109,6 +109,9 @@ type VM struct {
 
 	// Maximum number of execution steps (0 = unlimited)
 	maxSteps int
+
+	// Set by Push when a value did not fit on the stack; the run loop reports it
+	stackOverflow bool
 }
 
 // DefaultMaxSteps bounds the work of one Execute call unless SetMaxSteps
@@ -175,6 +178,9 @@ func (vm *VM) runLoop() (Value, error) {
 	for !vm.halted && vm.pc < len(vm.code) {
 		if err := vm.step(); err != nil {
 			return nil, err
+		}
+		if vm.stackOverflow {
+			return nil, fmt.Errorf("stack overflow: more than %d values on the stack", maxStackSize)
 		}
 		steps++
 		if vm.maxSteps > 0 && steps > vm.maxSteps {
@@ -1350,8 +1356,10 @@ const maxStackSize = 10000
 // Push adds a value to the stack
 func (vm *VM) Push(val Value) {
 	if len(vm.stack) >= maxStackSize {
-		// Silently drop to avoid panicking in hot paths; the step limit
-		// will catch runaway programs. In future versions this could return an error.
+		// The value is dropped here to avoid panicking in hot paths, but not
+		// silently: the run loop stops with an error after the instruction that
+		// overflowed the stack, instead of going on with values missing.
+		vm.stackOverflow = true
 		return
 	}
 	vm.stack = append(vm.stack, val)
@@ -1398,6 +1406,7 @@ func (vm *VM) Reset() {
 	vm.pc = 0
 	vm.code = nil
 	vm.halted = false
+	vm.stackOverflow = false
 }
 
 // registerBuiltins registers all built-in functions
